@@ -21,7 +21,7 @@ pub static DEF: CheckDef = CheckDef {
            smooth family adds div, powf, ln, exp, reciprocal, sigmoid, softmax with operand domains enforced from \
            actual values), mixed tracked/untracked leaves; readme: the README loop with random constants, shapes, \
            threshold and iteration count (data-dependent branch); chain: self-product chains of depth 2..60; fanin: \
-           wide sums of products sharing leaves; dag-toggles: random DAGs in which handles are used while untracked and while tracked (start/stop_tracking between uses, untracked() results); deep-chain: multiplication chains of depth 500 / 2000 / 30000 / 100000 differentiated in a process of their own on an 8 MiB stack. Seeds omitted / ones / non-uniform integers. Non-trivial = some \
+           wide sums of products sharing leaves; dag-toggles: random DAGs in which handles are used while untracked and while tracked (start/stop_tracking between uses, untracked() results); control-flow: programs written statement by statement against the library where every next statement (operation, operands, loop exit) is decided from values read back from the library's own newest array (values(), indexing, sum_all); deep-chain: multiplication chains of depth 500 / 2000 / 30000 / 100000 differentiated in a process of their own on an 8 MiB stack. Seeds omitted / ones / non-uniform integers. Non-trivial = some \
            tracked leaf received a non-zero gradient and the graph has at least two root-to-leaf paths; distinct = \
            distinct (program text without data, seed kind).",
     floors,
@@ -52,6 +52,7 @@ fn families(t: Tier) -> Vec<(&'static str, u64)> {
         ("chain", t.n(400, 6_000)),
         ("fanin", t.n(600, 20_000)),
         ("dag-toggles", t.n(10_000, 400_000)),
+        ("control-flow", t.n(6_000, 300_000)),
         ("deep-chain", 4),
     ]
 }
@@ -63,6 +64,7 @@ fn floors(_t: Tier) -> Vec<(&'static str, u64)> {
         ("programs_with_sharing_and_broadcast", 500),
         ("programs_with_custom_ops", 3_000),
         ("programs_with_untracked_leaf", 3_000),
+        ("decisions_from_library_values", 20_000),
     ]
 }
 
@@ -235,6 +237,95 @@ pub fn gen(ctx: &Ctx, fam: &str, k: u64, r: &mut Rng) -> Program {
 
 const DEEP: [usize; 4] = [500, 2_000, 30_000, 100_000];
 
+/// Data-dependent control flow: the program is written step by step against the library, and what it does next is
+/// decided from values READ OFF THE LIBRARY'S OWN ARRAYS (values(), indexing, sum_all of the newest result): which
+/// operation to apply to which operands, whether to go on, whether to leave a loop. The reference then evaluates the
+/// program that was actually built. (On exact-class data both sides agree bit for bit, so a wrong value read back
+/// is caught as a value mismatch of that node, not as a divergence of the two executions.)
+fn run_control_flow(ctx: &mut Ctx, r: &mut Rng) {
+    use crate::cg::*;
+    use crate::history::Hist;
+    let exact_data = r.chance(3, 4);
+    let mut cfg = if exact_data { GenCfg::exact() } else { GenCfg::smooth() };
+    cfg.max_ops = 100;
+    cfg.untracked_eighths = 2;
+    let mut h = match Hist::new(r, &cfg, false) {
+        Ok(h) => h,
+        Err(_) => return,
+    };
+    let budget = r.range(3, 14);
+    let mut decisions = 0u64;
+    let mut kinds: Vec<&'static str> = vec![];
+    for step in 0..budget {
+        if !h.failures.is_empty() {
+            break;
+        }
+        // read the newest live array back from the library
+        let newest = match h.live().last().copied() {
+            Some(n) => n,
+            None => break,
+        };
+        let (digest, largest, first) = {
+            let a = h.handles[newest].as_ref().unwrap();
+            let v = a.values();
+            let idx0: Vec<usize> = vec![0; a.dimensions().len()];
+            let first = a[idx0] as f64;
+            let _total = a.sum_all() as f64;
+            let largest = v.iter().fold(0.0f64, |m, x| m.max((*x as f64).abs()));
+            let mut d: u64 = 0xcbf29ce484222325;
+            for x in v.iter() {
+                // decisions depend on a coarse view of the data (sign and magnitude class), as user code would
+                let c = if *x > 0.0 { 1 } else if *x < 0.0 { 2 } else { 3 } as u64 + if x.abs() > 4.0 { 8 } else { 0 };
+                d = (d ^ c).wrapping_mul(0x100000001b3);
+            }
+            (d, largest, first)
+        };
+        decisions += 1;
+        // `while total < bound`: leave the loop early when the running result has grown past a threshold
+        // (threshold 100: whatever single operation follows stays exactly representable in single precision too, so the
+        // f32 and f64 builds take the same decisions on integer data and C19 can compare their per-case metadata)
+        if largest > 100.0 {
+            kinds.push("loop-exit-on-magnitude");
+            break;
+        }
+        // `if first > 0 { ... } else { ... }`: the branch picks the generator stream for the next statement
+        let mut r2 = Rng::new(digest ^ if first > 0.0 { 0x9e3779b97f4a7c15 } else { 0x2545f4914f6cdd1d } ^ step as u64);
+        kinds.push(if first > 0.0 { "branch-positive" } else { "branch-non-positive" });
+        h.build(&mut r2, &cfg);
+    }
+    let live_ops = h.live_ops();
+    let root = match live_ops.last().copied() {
+        Some(x) => x,
+        None => return,
+    };
+    let seed = rand_seed(r, h.st.refv[root].v.len());
+    h.pass(root, &seed, r.chance(1, 4), false);
+    h.check_slots();
+    let p = &h.st.p;
+    let desc = format!("control-flow|{}|{}", p.desc(), seed.name());
+    ctx.case(&desc, p.max_fanout() >= 2 || p.path_count() >= 2.0);
+    ctx.count("decisions_from_library_values", decisions);
+    ctx.count("leaf_gradients_compared", h.slot_checks);
+    ctx.hist("family", "control-flow");
+    for k in &kinds {
+        ctx.hist("control_flow_decisions", k);
+    }
+    ctx.hist("depth", &format!("{:02}", p.depth().min(64)));
+    ctx.sample("control-flow", || format!("{} seed={:?}", h.text(), seed));
+    // on non-integer data a decision may legitimately differ between float widths (a value within rounding of 0 or 4)
+    ctx.meta(|| if exact_data { format!("{} {:?}", desc, h.handles.iter().map(|x| x.as_ref().map(|a| a.dimensions().to_vec())).collect::<Vec<_>>()) } else { "control-flow|smooth-data".to_string() });
+    if p.nodes.iter().any(|n| matches!(n, Node::Op { kind, .. } if kind.is_custom())) {
+        ctx.count("programs_with_custom_ops", 1);
+    }
+    if p.nodes.iter().any(|n| matches!(n, Node::Leaf { tracked: false, .. })) {
+        ctx.count("programs_with_untracked_leaf", 1);
+    }
+    for f in &h.failures {
+        let cls = if f.kind.ends_with("panic") { format!("{}:{}", f.kind, panic_class(f.detail.split("panicked: ").nth(1).unwrap_or(""))) } else { f.kind.clone() };
+        ctx.violation(&format!("C01|control-flow|{}", cls), format!("{}\nhistory: {}", f.detail, h.text()));
+    }
+}
+
 pub fn run_case(ctx: &mut Ctx, fam: &str, k: u64, r: &mut Rng) {
     if fam == "deep-chain" {
         // "any depth": the pass must not need stack proportional to the depth of the graph
@@ -251,6 +342,9 @@ pub fn run_case(ctx: &mut Ctx, fam: &str, k: u64, r: &mut Rng) {
             Err(e) => ctx.count(&format!("deep_chain_probe_unavailable({})", e.chars().take(30).collect::<String>()), 1),
         }
         return;
+    }
+    if fam == "control-flow" {
+        return run_control_flow(ctx, r);
     }
     let p = gen(ctx, fam, k, r);
     let rr = match eval_ref_plain(&p) {
